@@ -27,12 +27,15 @@ BUILDS = [("sparse_std", []), ("dense_std", ["GUDHI_COLLAPSE_USE_DENSE_ARRAY"]),
           ("sparse_tbb", ["GUDHI_USE_TBB"]), ("dense_tbb", ["GUDHI_COLLAPSE_USE_DENSE_ARRAY", "GUDHI_USE_TBB"])]
 # (part, cfg, sample count (0 = every graph of the bound))
 MODELS = {
-    "quick": [("all_4v_w123", "MC_EdgeCollapse_w4.cfg", 0), ("all_5v_one_weight", "MC_EdgeCollapse_u5.cfg", 0),
-              ("sample_5v_w123", "MC_EdgeCollapse_s5.cfg", 30), ("sample_6v_w123", "MC_EdgeCollapse_s6.cfg", 150)],
+    # quick: on 4 vertices x {1,2,3} the theorems by the reduction only; the definitional ones (explicit chain sets) on
+    # 4 vertices x {1,2}, on every 5-vertex graph with equal weights and on the 5-vertex sample
+    "quick": [("all_4v_w123", "MC_EdgeCollapse_w4q.cfg", 0), ("all_4v_w12_definitional", "MC_EdgeCollapse_w4d.cfg", 0),
+              ("all_5v_one_weight", "MC_EdgeCollapse_u5.cfg", 0),
+              ("sample_5v_w123", "MC_EdgeCollapse_s5.cfg", 20), ("sample_6v_w123", "MC_EdgeCollapse_s6.cfg", 100)],
     "thorough": [("all_4v_w1234", "MC_EdgeCollapse_w4t.cfg", 0), ("all_5v_one_weight", "MC_EdgeCollapse_u5.cfg", 0),
-                 ("sample_5v_w123", "MC_EdgeCollapse_s5.cfg", 300), ("sample_6v_w123", "MC_EdgeCollapse_s6.cfg", 2000)],
+                 ("sample_5v_w123", "MC_EdgeCollapse_s5.cfg", 400), ("sample_6v_w123", "MC_EdgeCollapse_s6.cfg", 4000)],
 }
-RANDOM = {"quick": (300, 0, 1), "thorough": (1500, 600, 4)}   # random 7-9 vertices, random "big", sparse
+RANDOM = {"quick": (200, 0, 1), "thorough": (4000, 1500, 8)}   # random 7-9 vertices, random "big", sparse
 NARROW = ("ushort", "uchar")
 
 
